@@ -7,6 +7,7 @@ import (
 	"os"
 	"path/filepath"
 	"strings"
+	"sync"
 	"time"
 
 	"golang.org/x/tools/go/packages"
@@ -31,6 +32,41 @@ type World struct {
 	alwaysRedirect map[string]bool
 	pkgs           map[string]*ssa.Package
 	srcCache       map[string][]byte
+	names          sync.Map // *ssa.Function -> string
+	plain          sync.Map // functions that are simply executed from SSA
+	regIdx         sync.Map
+}
+
+// regIndex numbers the SSA values of a function (params, free variables, value-defining instructions).
+func (w *World) regIndex(fn *ssa.Function) map[ssa.Value]int {
+	if v, ok := w.regIdx.Load(fn); ok {
+		return v.(map[ssa.Value]int)
+	}
+	m := map[ssa.Value]int{}
+	for _, p := range fn.Params {
+		m[p] = len(m)
+	}
+	for _, p := range fn.FreeVars {
+		m[p] = len(m)
+	}
+	for _, b := range fn.Blocks {
+		for _, in := range b.Instrs {
+			if v, ok := in.(ssa.Value); ok {
+				m[v] = len(m)
+			}
+		}
+	}
+	w.regIdx.Store(fn, m)
+	return m
+}
+
+func (w *World) name(fn *ssa.Function) string {
+	if v, ok := w.names.Load(fn); ok {
+		return v.(string)
+	}
+	s := fn.String()
+	w.names.Store(fn, s)
+	return s
 }
 
 func (w *World) initOK(p *ssa.Package) bool {
